@@ -338,29 +338,48 @@ def mkPot (raked unraked : Int) (players : List Nat) : Except Err Pot :=
   else if unraked < 0 then .error .valueError
   else .ok ⟨raked, unraked, players⟩
 
+/-- `for i: if contributions[i] >= contribution: amount += contribution - previous` -/
+def levelAmount (contributions : List Int) (amount prev v : Int) : Int :=
+  (playerIndices cfg).foldl (fun a i =>
+    if getI contributions i ≥ v then a + (v - prev) else a) amount
+
+/-- `[i for i if pending_contributions[i] >= contribution and statuses[i]]` -/
+def levelPlayers (s : State) (pending : List Int) (v : Int) : List Nat :=
+  (playerIndices cfg).filter fun i => getI pending i ≥ v && getB s.statuses i
+
+/-- `while pots and pots[-1].player_indices == players: amount += pots.pop().amount`
+    (the pot list is kept reversed: its head is the last pot) -/
+def popSame (players : List Nat) : List Pot → Int → List Pot × Int
+  | p :: rest, amount =>
+    if p.players == players then popSame players rest (amount + p.amount) else (p :: rest, amount)
+  | [], amount => ([], amount)
+
 /-- one round of the loop over `sorted(set(contributions))` in `pots` (2853-2877) -/
 def potsStep (s : State) (contributions pending : List Int)
-    (acc : Except Err (List Pot × Int × Int)) (contribution : Int) :
+    (acc : Except Err (List Pot × Int × Int)) (v : Int) :
     Except Err (List Pot × Int × Int) :=
   match acc with
   | .error e => .error e
-  | .ok (pots, amount, previous) =>
-    let amount := (playerIndices cfg).foldl (fun a i =>
-      if getI contributions i ≥ contribution then a + (contribution - previous) else a) amount
-    let players := (playerIndices cfg).filter fun i =>
-      getI pending i ≥ contribution && getB s.statuses i
-    -- `while pots and pots[-1].player_indices == players: amount += pots.pop().amount`
-    let rec popSame (rp : List Pot) (amount : Int) : List Pot × Int :=
-      match rp with
-      | p :: rest => if p.players == players then popSame rest (amount + p.amount) else (rp, amount)
-      | [] => ([], amount)
-    let (rp, amount) := popSame pots amount
-    if amount != 0 then
-      let (raked, unraked) := pyRake cfg.rake (s.boardNonEmpty) amount
-      match mkPot raked unraked players with
+  | .ok (pots, amount, prev) =>
+    let players := levelPlayers cfg s pending v
+    let r := popSame players pots (levelAmount cfg contributions amount prev v)
+    if r.2 != 0 then
+      match mkPot (pyRake cfg.rake (s.boardNonEmpty) r.2).1 (pyRake cfg.rake (s.boardNonEmpty) r.2).2
+          players with
       | .error e => .error e
-      | .ok p => .ok (p :: rp, 0, contribution)
-    else .ok (rp, 0, contribution)
+      | .ok p => .ok (p :: r.1, 0, v)
+    else .ok (r.1, 0, v)
+
+/-- the initial amount and the two contribution vectors of `pots` (2831-2848): with ante
+    trimming off the antes are put in up front and taken out of every contribution -/
+def potsInputs (s : State) : Int × List Int × List Int :=
+  let contributions := (playerIndices cfg).map fun i => - getI s.payoffs i - getI s.bets i
+  let pending := (playerIndices cfg).map fun i => - getI s.payoffs i
+  if !cfg.anteTrim then
+    ( sumI ((playerIndices cfg).map (effectiveAnte cfg)),
+      (playerIndices cfg).map (fun i => getI contributions i - effectiveAnte cfg i),
+      (playerIndices cfg).map (fun i => getI pending i - effectiveAnte cfg i) )
+  else (0, contributions, pending)
 
 /-- `list(self.pots)` (2739-2879) -/
 def pots (s : State) : Except Err (List Pot) :=
@@ -370,17 +389,11 @@ def pots (s : State) : Except Err (List Pot) :=
     if sumI s.payoffs == - sumI s.bets then .ok []
     else if (playerIndices cfg).any (fun i => getI s.payoffs i > 0) then .error .assertionError
     else
-      let contributions := (playerIndices cfg).map fun i => - getI s.payoffs i - getI s.bets i
-      let pending := (playerIndices cfg).map fun i => - getI s.payoffs i
-      let (amount, contributions, pending) :=
-        if !cfg.anteTrim then
-          ( sumI ((playerIndices cfg).map (effectiveAnte cfg)),
-            (playerIndices cfg).map (fun i => getI contributions i - effectiveAnte cfg i),
-            (playerIndices cfg).map (fun i => getI pending i - effectiveAnte cfg i) )
-        else (0, contributions, pending)
-      match (sortedSet contributions).foldl (potsStep cfg s contributions pending) (.ok ([], amount, 0)) with
+      match (sortedSet (potsInputs cfg s).2.1).foldl
+          (potsStep cfg s (potsInputs cfg s).2.1 (potsInputs cfg s).2.2)
+          (.ok ([], (potsInputs cfg s).1, 0)) with
       | .error e => .error e
-      | .ok (rp, _, _) => .ok rp.reverse
+      | .ok r => .ok r.1.reverse
 
 /-- `total_pot_amount` -/
 def totalPotAmount (s : State) : Except Err Int :=
